@@ -4,6 +4,8 @@
 package main
 
 import (
+	"context"
+	"os/exec"
 	"bytes"
 	"fmt"
 	"math/rand"
@@ -522,6 +524,52 @@ func main() {
 		vitems = append(vitems, fmt.Sprintf("(%s, %s)", coqgen.List(vc.evs), classify(vc.err)))
 	}
 	w.Def("val_cases", "list (list optev * N)", vitems)
+	// the built macat command itself (macat/macat/main.go): a rejected command line ends with a non-zero exit status
+	// and something on stderr.  Every option list that App.Run rejected above (up to 80), plus the usage class (unknown
+	// option, missing value, stray argument).  (usage class?, option events, exit status, bytes on stderr)
+	var eitems []string
+	if bin := os.Getenv("MACAT_BIN"); bin != "" {
+		type ec struct {
+			evs  []string
+			args []string
+		}
+		var ecs []ec
+		for _, vc := range vals {
+			if vc.err != nil && classify(vc.err) != "100" && len(ecs) < 80 {
+				ecs = append(ecs, ec{vc.evs, vc.args})
+			}
+		}
+		ecs = append(ecs, ec{nil, []string{"--no-such-option"}}, ec{nil, []string{"--pull", "--bind"}},
+			ec{nil, []string{"--pull", "--bind", addr(), "stray"}})
+		res := make([]string, len(ecs))
+		for i := range ecs {
+			wg.Add(1)
+			go func(i int) {
+				defer wg.Done()
+				sem2 <- struct{}{}
+				defer func() { <-sem2 }()
+				ctx, cancel := context.WithTimeout(context.Background(), 20*time.Second)
+				defer cancel()
+				cmd := exec.CommandContext(ctx, bin, ecs[i].args...)
+				var eb bytes.Buffer
+				cmd.Stderr = &eb
+				err := cmd.Run()
+				code := 0
+				if ee, ok := err.(*exec.ExitError); ok {
+					code = ee.ExitCode()
+					if code < 0 {
+						code = 998 // killed: it ran instead of rejecting
+					}
+				} else if err != nil {
+					code = 997
+				}
+				res[i] = fmt.Sprintf("(%s, %s, %d, %d)", coqgen.Bool(ecs[i].evs == nil), coqgen.List(ecs[i].evs), code, eb.Len())
+			}(i)
+		}
+		wg.Wait()
+		eitems = res
+	}
+	w.Def("exit_cases", "list (bool * list optev * N * N)", eitems)
 	w.P("(* sample args: %q *)", strings.Join(vals[0].args, " "))
 }
 
